@@ -43,6 +43,7 @@ def with_history(fam):
             st.tuples(st.just("fit"), st.just(0)),
             st.tuples(st.just("fit_transform"), st.just(0)),
             st.tuples(st.just("transform_bad"), st.integers(0, 2)),
+            st.tuples(st.just("fit_bad"), st.integers(1, 6)),
             st.tuples(st.just("twin"), st.just(0)),
         )
         ops = draw(st.lists(op, min_size=3, max_size=10 if tier == "thorough" else 7))
@@ -276,6 +277,31 @@ def _run(name, fam, spec, r, np, sp, private):
                 last_raised = True
                 r.label("raised:" + type(out).__name__)
             check_invariants("transform(bad)")
+        elif op == "fit_bad":
+            # a fit whose input fails part-way (the data generator raises in a later block): must raise, must leave nothing behind
+            if name != "wass_LOT_exact_generator":
+                continue
+            W = np.asarray(spec["train"]["W"], dtype=np.float64)
+            V = np.asarray(spec["train"]["V"], dtype=np.float64)
+            k_fail = min(arg, W.shape[0] - 1)
+
+            def failing():
+                for i in range(W.shape[0]):
+                    if i == k_fail:
+                        raise RuntimeError("data source failed at item %d" % i)
+                    yield W[i][W[i] > 0].copy()
+            kw = fam.fit_kwargs(spec, spec["train"])
+            kw["vectors"] = (V[W[i] > 0].copy() for i in range(W.shape[0]))
+            s, out = call(est.fit, failing(), **kw)
+            if s == "ok":
+                r.label("bad-fit-accepted")
+            else:
+                r.label("fit-raised:" + type(out).__name__)
+                last_raised = True
+            del out
+            fitted = False          # the state after a failed fit is not relied upon: a new fit comes first
+            memo.clear()
+            check_invariants("fit(bad)")
         elif op == "twin":
             if not fitted or is_gen:
                 continue
